@@ -31,6 +31,7 @@ let err_str = function
   | XConstProp.UnknownSymbol x -> "UnknownSymbol " ^ ostr x
   | XConstProp.InvalidSyscall n -> P.sprintf "InvalidSyscall %d" (iz n)
   | XConstProp.NonConstVal x -> "NonConstVal " ^ ostr x
+  | XConstProp.RedefinedProc x -> "RedefinedProc " ^ ostr x
 
 let status = function
   | XConstProp.COk _ -> "ok"
